@@ -152,7 +152,7 @@ def fresnel_rp(n0, n1, theta0, theta1):
 
     """
     num = n0 * np.cos(theta1) - n1 * np.cos(theta0)
-    den = n1 * np.cos(theta1) + n1 * np.cos(theta0)
+    den = n0 * np.cos(theta1) + n1 * np.cos(theta0)
     return num / den
 
 
